@@ -344,7 +344,7 @@ def rule_broadcast(ctx):
             for e2 in q.calls('repeat'):
                 gt = [pol for a, pol in e2.guards if a[0] == 'cmp' and a[1] == '==' and a[3] == const(1) and a[2][0] == 'attr' and a[2][2] == 'size' and a[2][1][0] == 'elem']
                 none = [pol for a, pol in e2.guards if a[0] == 'cmp' and a[1] == 'is' and a[3] == T.CONST_NONE and pol is True]
-                if True in gt and none:
+                if none and (True in gt or not gt):
                     covers_single_target = True
                 if not (False in gt or none):
                     overwrites_real = e2
